@@ -232,7 +232,13 @@ def run_solver(rng, obs):
     else: s.SetInitialPoints(x0)
     G = 120
     s.SetEvaluationLimits(G, 10 ** 6)
-    stop = mt.ChangeOverGeneration(1e-10, 40)
+    # the ordinary stop: far away, or likely to fire at the very step a collapse is first reported (same window, energy tolerance of the
+    # same order) - then the solver stops and must not half-apply that collapse
+    stopkind = rng.choice(['late', 'late', 'same_window', 'vtr'])
+    if stopkind == 'late': stop = mt.ChangeOverGeneration(1e-10, 40)
+    elif stopkind == 'same_window': stop = mt.ChangeOverGeneration(rng.choice([1e-6, 1e-3, 1e-2]), gens)
+    else: stop = mt.VTR(rng.choice([1e-2, 1e-3, 1e-5]), 0.0)
+    obs.desc['stop'] = stopkind
     terms = [stop]
     if 'at' in conds: terms.append(mt.CollapseAt(target, tolerance=tol, generations=gens))
     if 'as' in conds: terms.append(mt.CollapseAs(False, tolerance=tol, generations=gens))
